@@ -19,7 +19,8 @@ RULE = ("case = random schema (non-null density varied 0.15-0.7) x %d small vali
         "reference also finds (path incl. list indices, location inside the merged field nodes, library errors keep "
         "message+extensions); every visible nulled position has an explaining error. non-trivial = a faulted execution "
         "whose reference has >=1 error; distinct by (SDL, document, variables, world, fault set)") % (DOCS_PER_SCHEMA, MAX_PAIRS, MAX_SUBSETS)
-ASSUMPTIONS = ["libgraphqlparser replaced by the vt drop-in parser", "each injected exception is a fresh instance"]
+ASSUMPTIONS = ["libgraphqlparser replaced by the vt drop-in parser",
+               "each injected exception is a fresh instance, except the 'raise_shared' faults (one instance raised at two places: known finding)"]
 ANCHORS = [
     "tartiflette.coercers.outputs.common:handle_field_error",
     "tartiflette.coercers.outputs.common:complete_value_catching_error",
@@ -40,6 +41,11 @@ ANCHORS = [
 async def run_faulted(ctx, s, engine, req, faults, sdl):
     st = ctx.stats
     w_ref, w_eng = X.make_worlds(s, req, faults)
+    n_shared = sum(1 for f in faults.values() if f[0] == "raise_shared")
+    mech = None
+    if n_shared:
+        from vt.world import make_shared_exception
+        w_eng.shared_exc = make_shared_exception()
     case = dict(req.describe(), sdl=sdl, faults={k: list(v) for k, v in faults.items()})
     try:
         ref = X.run_reference(s, req, w_ref)
@@ -53,6 +59,10 @@ async def run_faulted(ctx, s, engine, req, faults, sdl):
     except Exception as e:  # noqa
         ctx.violation("execute-raised", repr(e), case)
         return
+    # the shared instance counts as "raised twice" when it was actually raised >= 2 times (two fault points, or one
+    # fault point reached through two aliases / list items)
+    if sum(1 for k in w_eng.fired if faults.get(k, ("",))[0] == "raise_shared") >= 2:
+        mech = "same-exception-instance-raised-twice"
     st.inc("evaluations")
     kinds = "+".join(sorted(f[0] + ("@item" if len(f) > 1 and f[1] else "") for f in faults.values()))
     st.inc("faultkind:" + kinds if len(faults) == 1 else "faults:%d" % len(faults))
@@ -75,7 +85,9 @@ async def run_faulted(ctx, s, engine, req, faults, sdl):
         ctx.violation("unexpected-errors", "faults=%s %s" % (sorted(faults.items())[:3], X.jdump(resp["errors"])[:300]), case)
         return
     for kind, detail in X.check_errors(ctx, req, resp, ref, case):
-        ctx.violation(kind, "faults=%s %s" % (sorted(faults.items())[:3], detail), case)
+        # the known finding only explains misattributed paths/locations of the shared instance
+        m = mech if kind in ("null-unexplained", "location-outside-field", "error-for-no-failure") else None
+        ctx.violation(kind, "faults=%s %s" % (sorted(faults.items())[:3], detail), case, m)
     st.inc("errors_checked", len(resp.get("errors") or []))
     if ref.errors:
         st.distinct("nontrivial", (sdl, req.text, canon(req.variables), req.wseed, sorted(faults.items())))
@@ -117,8 +129,41 @@ async def run_case(ctx, rng, index):
                 for (k1, f1), (k2, f2) in pairs:
                     if k1 != k2:
                         await run_faulted(ctx, s, b.engine, req, {k1: f1, k2: f2}, b.sdl)
+                # the SAME exception instance raised by two different field instances (known finding)
+                insts = sorted(w0.insts)
+                if len(insts) >= 2:
+                    k1, k2 = rng.sample(insts, 2)
+                    await run_faulted(ctx, s, b.engine, req, {k1: ("raise_shared",), k2: ("raise_shared",)}, b.sdl)
+                    await run_faulted(ctx, s, b.engine, req, {k1: ("raise_shared",)}, b.sdl)
                 for _ in range(MAX_SUBSETS):
                     sub = rng.sample(points, min(len(points), rng.randint(3, 6)))
                     await run_faulted(ctx, s, b.engine, req, dict(sub), b.sdl)
     finally:
         b.dispose()
+
+
+PROBE_SDL = "type Query { a: String b: String c: String }"
+
+
+async def run_probes(ctx):
+    """Minimal witness of the known finding: one library-error INSTANCE raised by two fields."""
+    from tartiflette import Engine, Resolver
+    from vt import boot
+    from vt.world import make_shared_exception
+    name = boot.fresh_schema_name("c02probe")
+    shared = make_shared_exception()
+    for f in ("a", "b"):
+        async def r(parent, args, c, info):
+            raise shared
+        Resolver("Query." + f, schema_name=name)(r)
+    e = Engine(PROBE_SDL, schema_name=name)
+    await e.cook()
+    resp = await e.execute("{ a b c }")
+    ctx.stats.inc("probe_witnesses")
+    paths = sorted(tuple(x.get("path") or ()) for x in resp.get("errors") or [])
+    if paths != [("a",), ("b",)]:
+        ctx.violation("null-unexplained", "witness { a b } with one exception instance raised by both: error paths %s" % (paths,),
+                      {"sdl": PROBE_SDL, "query": "{ a b c }"}, "same-exception-instance-raised-twice")
+    else:
+        ctx.stats.inc("stale-witness:same-exception-instance-raised-twice")
+    boot.forget_schema(name)
